@@ -607,6 +607,10 @@ func (n *Node) viewLen() int {
 	return l
 }
 
+// Announce records b as a head the source has announced (pushed
+// announcements of a subscription).
+func (n *Node) Announce(b *Block) { n.announce(b) }
+
 func (n *Node) announce(b *Block) {
 	if n.Quiet {
 		return
